@@ -848,6 +848,8 @@ def memory_job(job):
             seq[rng.randrange(ln)] = alpha[1]
         form = rng.randrange(3)
         m_, n_ = (1, 1) if form == 0 else (rng.choice((1, 2, 3)),) * 2 if form == 1 else (rng.choice((1, 2)), rng.choice((2, 3, 4, 5)))
+        if form == 2 and rng.random() < 0.05:
+            m_, n_ = 3, 2                                    # an empty range of distances: nothing to report
         hexa = rng.random() < 0.3
         seqtext = ','.join(('0x%02X' % b) if hexa else str(b) for b in seq)
         arg = seqtext + ('' if form == 0 else '-%d' % m_ if form == 1 else '-%d-%d' % (m_, n_))
